@@ -114,4 +114,61 @@ theorem monitor_accepts_model_each (ops : List (Op × Option Who)) (hok : okRun 
         | none => rw [hc] at h; simp only [] at h ⊢; exact ih _ h k
   exact key _ _ (monitor_accepts_model ops hok)
 
+
+/-! ### the hypotheses are decidable, satisfiable and needed -/
+
+def decOkRun : ∀ (ops : List (Op × Option Who)) (seen : List Nat) (y : State), Decidable (okRun seen y ops)
+  | [], _, _ => isTrue trivial
+  | (op, h) :: rest, seen, y =>
+    match (inferInstance : Decidable (okOp seen y op)), decOkRun rest (seenAfter seen op) (sysStep y op h).1 with
+    | isTrue h1, isTrue h2 => isTrue ⟨h1, h2⟩
+    | isFalse h1, _ => isFalse (fun hc => h1 hc.1)
+    | _, isFalse h2 => isFalse (fun hc => h2 hc.2)
+
+instance (seen : List Nat) (y : State) (ops : List (Op × Option Who)) : Decidable (okRun seen y ops) := decOkRun ops seen y
+
+/-- the state of the model after a run -/
+def stateAfter (y : State) : List (Op × Option Who) → State
+  | [] => y
+  | (op, h) :: rest => stateAfter (sysStep y op h).1 rest
+
+/-- a run the hypotheses admit: two sessions of both protocol generations, a listen, a burst, the timer, a held
+fan-out with a change between its writes, a ResourceUpdated, cached calls, a table dump, a close, the end -/
+def sampleRun : List (Op × Option Who) :=
+  [(.config .on .unset .on true, none), (.connect 0 1 true [.tools], none), (.listen 0 false, none),
+   (.connect 1 2 false [], none), (.subscribe 1 0 false, none), (.subscribe 0 1 true, none),
+   (.change .tools .add, none), (.change .tools .replace, none), (.advance 10, none), (.cbstep .tools, none),
+   (.change .tools .remove, none), (.fsend .tools, some (.slot 1)), (.fsend .tools, none), (.advance 10, none),
+   (.cbrun .tools, none), (.rupdated 0 0, none), (.rupdated 1 2, none), (.list 0 (.list .tools) .post, none),
+   (.fill 0 (.list .tools), none), (.list 0 (.read 1) .n, none), (.tables, none), (.ackdone 0 3, none),
+   (.unsubscribe 0 1 false, none), (.close 1, none), (.tables, none), (.fin, none)]
+
+set_option maxRecDepth 20000 in
+example : okRun [] {} sampleRun := by decide
+
+set_option maxRecDepth 20000 in
+/-- the sample run is not trivial for the monitor: deliveries, acknowledgements and cache fills are judged on it -/
+example : (modelTrace {} sampleRun).length = 26 ∧ runMon {} (modelTrace {} sampleRun) = none := by decide
+
+/-- Two slots connected under ONE session id (a connect that reuses an id): the model writes to the first slot
+only, the monitor — which counts slots — sees an entitled session that no callback reached.  Session ids must
+not be reused: the only hypothesis this run violates (its `end` is issued in a quiet state). -/
+def reuseRun : List (Op × Option Who) :=
+  [(.connect 0 5 false [], none), (.connect 1 5 false [], none), (.change .tools .add, none), (.advance 10, none),
+   (.cbrun .tools, none), (.fin, none)]
+
+theorem fresh_sid_needed :
+    runMon {} (modelTrace {} reuseRun) = some .endSkipped ∧ ¬ okRun [] {} reuseRun ∧
+    quietB (stateAfter {} reuseRun.dropLast).srv = true := by decide
+
+/-- `end` while the debounce timer is still armed: the monitor's `end` clause speaks about a case in which every
+timer has fired and every callback has run.  `end` must be issued in a quiet state: the only hypothesis this run
+violates. -/
+def earlyEnd : List (Op × Option Who) :=
+  [(.connect 0 1 false [], none), (.change .tools .add, none), (.fin, none)]
+
+theorem quiet_needed :
+    runMon {} (modelTrace {} earlyEnd) = some .endNoLost ∧ ¬ okRun [] {} earlyEnd ∧
+    quietB (stateAfter {} earlyEnd.dropLast).srv = false := by decide
+
 end Notify.Bridge
